@@ -148,5 +148,12 @@ package node
 //@ func Key.AppendBit
 //@   props C03
 //@   safety bounds
-//@   requires 8 * len(k) >= int(keyLen) && len(k) <= div(int(keyLen), 8) + 1 && int(keyLen) < 65535
+//@   requires len(k) <= div(int(keyLen), 8) + 1 && int(keyLen) < 65535
 //@   ensures len(result) == div(int(keyLen) + 8, 8)
+
+//@ func Key.Split
+//@   props C03
+//@   trusted
+//@   modifies nothing
+//@   ensures len(prefix) == div(int(splitPoint) + 7, 8)
+//@   note trusted, partial: when Split returns (it panics for splitPoint > keyLen), the prefix has the byte length of splitPoint bits
